@@ -1,2 +1,189 @@
+import NeatviVerif.Lemmas.C11Parse
+import NeatviVerif.Lemmas.C11Emit
+import NeatviVerif.Lemmas.C11Wf
+import NeatviVerif.Lemmas.C11VM
+import NeatviVerif.Lemmas.C11Range
+/-!
+# C11: the regex compiler and VM stay inside their bounds
+
+All statements are for every pattern, every parse tree, every program state: the proofs are by
+induction (on the parser fuel, the tree, and the measure of the VM), never by bounded checking.
+
+* `parse_bounds`, `parse_bounds_parse`: repetition bounds of every parsed node are well formed;
+* `emit_length`, `emitLen_le_count`, `program_fits`: the compiled program fits the allocation;
+* `jmpend_bounded`: the `jmpend[NREPS]` array of `rnode_emit` is never overrun;
+* `emit_wf`, `regcomp_wf`: every edge of a compiled program stays inside the program and jumps and
+  second fork targets go forward;
+* `no_edge_trap`: on such programs the VM never takes the checked-edge trap;
+* `atomMatch_range`, `offsets_in_range`, `offsets_shape`, `regcomp_offsets`: reported offsets
+  satisfy `start = so ≤ eo ≤ length`, every group offset is `-1` or inside the subject.
+
+The definitions `RepOk`, `TreeOk`, `InstOk`, `SegOk`, `EdgeOk`, `WfProg`, `MarksOk`, `AtomRange`,
+`BodyInst`, `Shape` live in `NeatviVerif/Lemmas/C11*.lean`.
+-/
 namespace Neatvi.Props.C11
+open Neatvi Neatvi.Regex
+
+/-! ## 1. well-formed bounds from the parser -/
+
+/-- Every tree the recursive-descent parser returns — from any of its four functions, for every
+    pattern and every fuel — has well-formed repetition bounds on every `atom`/`grp` node. -/
+theorem parse_bounds (f : Nat) :
+    (∀ p t rest, parseAlt f p = some (some t, rest) → TreeOk t) ∧
+    (∀ p t rest, parseSeq f p = some (some t, rest) → TreeOk t) ∧
+    (∀ p t rest, parseAtom f p = some (some t, rest) → TreeOk t) ∧
+    (∀ p t rest, parseGrp f p = some (some t, rest) → TreeOk t) :=
+  parse_bounds_all f
+
+/-- `rnode_parse` as `regcomp` calls it returns a tree with well-formed bounds. -/
+theorem parse_bounds_parse (p : Bytes) (t : RNode) (h : parse p = some (some t)) : TreeOk t :=
+  parse_ok h
+
+/-- Group numbering keeps the bounds. -/
+theorem grpnum_bounds (t : RNode) (num : Nat) (h : TreeOk t) : TreeOk (grpnum t num).1 :=
+  grpnum_treeOk t num h
+
+/-! ## 2.–4. the program fits its allocation -/
+
+/-- The emitted code has length `emitLen t`, for every tree and base address. -/
+theorem emit_length (t : RNode) (base : Nat) : (emit t base).length = emitLen t :=
+  emit_length_aux t base
+
+/-- For well-formed bounds the emitted code is within the estimate `rnode_count` that sizes the
+    allocation. -/
+theorem emitLen_le_count (t : RNode) (h : TreeOk t) : (emitLen t : Int) ≤ count t :=
+  emitLen_le_count_aux t h
+
+/-- The compiled program always fits the memory reserved for it (`rnode_count + 3` instructions),
+    for every pattern and all flags. -/
+theorem program_fits (p : Bytes) (flg : Nat) (prog : Prog)
+    (h : regcomp p flg = some (some prog)) : prog.fits = true := by
+  unfold regcomp at h
+  split at h
+  · cases h
+  · cases h
+  · rename_i t ht
+    simp only [Option.some.injEq] at h
+    subst h
+    have h1 := emitLen_le_count t (parse_ok ht)
+    have h2 := emitLen_grpnum t 1
+    simp only [Prog.fits, decide_eq_true_eq, List.length_append, List.length_cons,
+      List.length_nil, emit_length, h2]
+    omega
+
+/-! ## 5. the `jmpend` array -/
+
+/-- The forks whose second target is patched at the end of a repetition (the leading fork of a
+    `mn = 0` repetition and one per optional copy) number at most `NREPS`: `jmpend[NREPS]` is never
+    overrun. -/
+theorem jmpend_bounded (mn mx : Int) (h : RepOk mn mx) :
+    (if mn = 0 then 1 else 0) + (mx - max 1 mn).toNat ≤ Gen.NREPS :=
+  jmpend_bounded_aux mn mx h
+
+/-! ## 6. edges -/
+
+/-- Emitting `t` at address `a` writes only targets in `[a, a + emitLen t]`; jump targets and second
+    fork targets are strictly forward (the first fork target of an unbounded repetition is the only
+    backward edge). -/
+theorem emit_segment (t : RNode) (a : Nat) : SegOk (emit t a) a a (a + emitLen t) :=
+  segOk_emit t a
+
+/-- The code `regcomp` builds around any tree is well formed.  (`TreeOk t` is not needed.) -/
+theorem emit_wf (t : RNode) : WfProg ([Inst.mark 0] ++ emit t 1 ++ [Inst.mark 1, Inst.mtch]) :=
+  emit_wf_aux t
+
+/-- Every compiled program is well formed. -/
+theorem regcomp_wf (p : Bytes) (flg : Nat) (prog : Prog)
+    (h : regcomp p flg = some (some prog)) : WfProg prog.code := by
+  unfold regcomp at h
+  split at h
+  · cases h
+  · cases h
+  · simp only [Option.some.injEq] at h
+    subst h
+    exact emit_wf _
+
+/-! ## 7. the checked edges never trap -/
+
+/-- On a well-formed program, if no atom traps then neither `loop` nor `act` returns `trap`, from
+    any state whose `pc` is inside the program. -/
+theorem no_edge_trap (cx : Ctx) (hwf : WfProg cx.prog)
+    (hat : ∀ a pos, atomMatch a cx.subj cx.flg pos ≠ AR.trap)
+    (dep pc pos : Nat) (m : Marks) (cuts : Nat) (hpc : pc < cx.prog.length) :
+    loop cx dep pc pos m cuts ≠ Res.trap ∧ act cx dep pc pos m cuts ≠ Res.trap :=
+  ⟨loop_no_trap cx hwf hat dep pc hpc pos m cuts, act_no_trap cx hwf hat dep pc hpc pos m cuts⟩
+
+/-! ## 8. offsets -/
+
+/-- `ratom_match` moves forward and stays inside the subject, for every atom kind (the ICASE
+    literal comparison included) and all flags. -/
+theorem atomMatch_range (a : Atom) (subj : Bytes) (flg pos pos' : Nat) (hp : pos ≤ subj.length)
+    (h : atomMatch a subj flg pos = AR.ok pos') : pos ≤ pos' ∧ pos' ≤ subj.length :=
+  atomMatch_range_aux a subj flg pos pos' hp h
+
+/-- Hence every context satisfies the atom hypothesis of the range lemmas. -/
+theorem atomRange (cx : Ctx) : AtomRange cx := atomRange_all cx
+
+/-- A successful match ends inside the subject, at or after its start position, and every mark is
+    `-1` or an offset between the start position and the length of the subject — for every program,
+    subject and flags. -/
+theorem offsets_in_range (cx : Ctx) (start cuts pos : Nat) (m : Marks) (c : Nat)
+    (hs : start ≤ cx.subj.length) (h : recmatch cx start cuts = Res.ok pos m c) :
+    start ≤ pos ∧ pos ≤ cx.subj.length ∧
+      ∀ x ∈ m, x = -1 ∨ ((start : Int) ≤ x ∧ x ≤ (cx.subj.length : Int)) :=
+  recmatch_range cx (atomRange cx) hs h
+
+/-- For a program of the shape `regcomp` produces (`mark 0` first, `mark 1` just before `mtch`, a
+    body that sets no mark below 2 and only targets itself or the closing mark) run with at least
+    two mark slots, the whole-match offsets are `m[0] = start` and `m[1] = pos`. -/
+theorem offsets_shape (cx : Ctx) (hshape : Shape cx.prog) (hng : 2 ≤ cx.ngrps)
+    (start cuts pos : Nat) (m : Marks) (c : Nat) (h : recmatch cx start cuts = Res.ok pos m c) :
+    m[0]? = some (start : Int) ∧ m[1]? = some (pos : Int) :=
+  recmatch_shape cx hshape hng h
+
+/-- Every compiled program has that shape. -/
+theorem regcomp_shape (p : Bytes) (flg : Nat) (prog : Prog)
+    (h : regcomp p flg = some (some prog)) : Shape prog.code :=
+  regcomp_shape_aux h
+
+/-- End to end: for a compiled program, `so = start`, `eo = pos`, `0 ≤ so ≤ eo ≤ length`, and every
+    group offset is `-1` or in `[so, length]`. -/
+theorem regcomp_offsets (p : Bytes) (flg : Nat) (prog : Prog)
+    (hc : regcomp p flg = some (some prog)) (cx : Ctx) (hprog : cx.prog = prog.code)
+    (hng : 2 ≤ cx.ngrps) (start cuts pos : Nat) (m : Marks) (c : Nat)
+    (hs : start ≤ cx.subj.length) (h : recmatch cx start cuts = Res.ok pos m c) :
+    ∃ so eo : Int, m[0]? = some so ∧ m[1]? = some eo ∧ so = start ∧ eo = pos ∧
+      0 ≤ so ∧ so ≤ eo ∧ eo ≤ (cx.subj.length : Int) ∧
+      ∀ x ∈ m, x = -1 ∨ (so ≤ x ∧ x ≤ (cx.subj.length : Int)) := by
+  have hsh : Shape cx.prog := by rw [hprog]; exact regcomp_shape p flg prog hc
+  obtain ⟨h0, h1⟩ := offsets_shape cx hsh hng start cuts pos m c h
+  obtain ⟨r1, r2, r3⟩ := offsets_in_range cx start cuts pos m c hs h
+  exact ⟨start, pos, h0, h1, rfl, rfl, by omega, by omega, by omega, r3⟩
+
+/-! ## concrete instances -/
+
+/-- `((a{2,3}|b*)c)` compiles and fits. -/
+example : (regcomp [40, 40, 97, 123, 50, 44, 51, 125, 124, 98, 42, 41, 99, 41] 0).map
+    (·.map (fun p => (p.fits, p.code.length, p.alloc))) = some (some (true, 17, 19)) := by
+  decide +kernel
+
+/-- its parse tree has well-formed bounds -/
+example : (parse [40, 40, 97, 123, 50, 44, 51, 125, 124, 98, 42, 41, 99, 41]).map
+    (·.map (fun t => decide (TreeOk t))) = some (some true) := by
+  decide +kernel
+
+/-- a tree that is `TreeOk`, and one that is not (`a{3,2}` as a tree; the parser rejects it) -/
+example : TreeOk (.grp (.alt (.atom ⟨AK.chr, [97]⟩ 2 3) (.atom ⟨AK.chr, [98]⟩ 0 (-1))) 1 1 1) := by
+  decide
+example : ¬ TreeOk (.atom ⟨AK.chr, [97]⟩ 3 2) := by decide
+
+/-- `a{200}` is rejected, `a{128}` fits with 128 copies -/
+example : (regcomp [97, 123, 50, 48, 48, 125] 0).map (·.isNone) = some true := by decide +kernel
+example : (regcomp [97, 123, 49, 50, 56, 125] 0).map (·.map (fun p => (p.fits, p.code.length, p.alloc))) =
+    some (some (true, 131, 259)) := by decide +kernel
+
 end Neatvi.Props.C11
+
+open Neatvi.Props.C11 in
+section
+end
